@@ -1187,6 +1187,7 @@ func replacePairRemote(pair *CandidatePair, remote Candidate) *CandidatePair {
 	replacement.state = pair.state
 	replacement.nominated = pair.nominated
 	replacement.nominateOnBindingSuccess = pair.nominateOnBindingSuccess
+	replacement.deferredNominationValue = pair.deferredNominationValue
 
 	atomic.StoreInt64(&replacement.currentRoundTripTime, atomic.LoadInt64(&pair.currentRoundTripTime))
 	atomic.StoreInt64(&replacement.totalRoundTripTime, atomic.LoadInt64(&pair.totalRoundTripTime))
